@@ -3,6 +3,7 @@ package c19
 import (
 	"encoding/hex"
 	"fmt"
+	"maps"
 	"math"
 	"regexp"
 	"slices"
@@ -125,6 +126,23 @@ func analyze(cl *cluster) *analysis {
 		msg := strings.SplitN(f, ": ", 2)
 		a.add("node-died:fatal-log:"+reNum.ReplaceAllString(msg[len(msg)-1], "N"), f, map[string]any{"fatal": f})
 	}
+
+	// (0) the wire: a payload of an honest sender that a receiver could not
+	// decode, and what the receivers decoded
+	rec.rmu.Lock()
+	a.obs["consensus_payloads_decoded_at_the_receivers"] = rec.recvDecoded
+	for reason, k := range rec.cvReasons {
+		a.obs["change_views_received_with_reason_"+reason] = k
+	}
+	for _, key := range slices.Sorted(maps.Keys(rec.undecodable)) {
+		u := rec.undecodable[key]
+		a.obs["consensus_payloads_undecodable_at_the_receivers"] += u.Count
+		a.add("wire:honest-consensus-payload-undecodable-at-receiver:"+key,
+			fmt.Sprintf("node %d could not decode a %s payload (reason %q, height %d, view %d) broadcast by validator %d: %s; %d deliveries of this kind failed", u.Receiver, u.Type, u.Reason, u.Height, u.View, u.Validator, u.Err, u.Count),
+			map[string]any{"first": u})
+	}
+	rec.rmu.Unlock()
+	a.obs["payloads_the_services_reported_as_undecodable"] = rec.logs["info:can't decode payload data"]
 
 	// (1a) agreement at acceptance time: every successful AddBlock of the run
 	// was recorded as (node, height, hash) when it happened, so that a fork is
